@@ -7,6 +7,9 @@ Alpha13 == {"[", "r", "e", "f", ":", "sp", "]", "0", "1", "9", "d", "R", "x"}
    exponent, full-width digits *)
 AlphaNumber == {"+", "-", "_", ".", "e", "0", "5", "]", "sp", "dfw"}
 SeedNumber == {Prefix, Prefix \o <<"5">>}
+(* the separator after the colon is one U+0020; other blanks a pattern class such as \s would admit *)
+AlphaBlank == {"sp", "tab", "nbsp", "ideosp", "5", "]"}
+SeedColon == {<<"[", "r", "e", "f", ":">>}
 AlphaBoundary == {"]", "0", "5", "6", "sp", "x"}
 SeedPrefixes == {SubSeq(Prefix, 1, i) : i \in 0..6}
 BoundaryNumbers == {
